@@ -73,6 +73,18 @@ func checkUnit(u *defs.Unit, pairs bool, report func(problem), sample func(any))
 				map[string]any{"type": u.Name, "version": u.Version, "kind": "default"}})
 		}
 	}
+	// IsFlexible() must agree with the definition's "flexible vN+".
+	if u.EffVersion == nil {
+		b := u.Bases()[0]
+		if f, ok := u.Build(b.V).(interface{ IsFlexible() bool }); ok {
+			if f.IsFlexible() != u.S.FlexibleIn(u.Version) {
+				report(problem{u.Name + ":isflexible", fmt.Sprintf("%s v%d: IsFlexible() = %v but the definition says flexible from v%d", u.Name, u.Version, f.IsFlexible(), u.S.FlexibleAt),
+					map[string]any{"type": u.Name, "version": u.Version, "kind": "isflexible"}})
+			}
+		} else if u.S.TopLevel {
+			report(problem{u.Name + ":isflexible", u.Name + ": top level message without IsFlexible()", map[string]any{"type": u.Name, "version": u.Version, "kind": "isflexible"}})
+		}
+	}
 	sampled := false
 	st.paths, st.pairs = u.Enumerate(pairs, func(v defs.Valuation) {
 		ver := u.Version
